@@ -107,6 +107,11 @@ class LevyMeasure:
 
         if a > b:
             raise ValueError("Expected a<b when integrating the levy measure")
+        if a < 0 < b:
+            # the density is singular (or has a kink) at zero: integrate each side separately
+            return self.integrate_against_xn(a, 0.0, n) + self.integrate_against_xn(
+                0.0, b, n
+            )
         return quad(lambda x: x**n * self.__call__(x), a, b)[0]
 
 
